@@ -188,6 +188,7 @@ def compare(a, b, lines_holder=[None]):
             if fx["a3"] != "-" and float(fy["a3"]) != int(fx["a3"]): return False
             if fx["wfg"] != "-" and fy.get("wfg", "-") != "-" and float(fy["wfg"]) != int(fx["wfg"]): return False
             if fx["lim"] != fy.get("lim", "?"): return False      # limitSet(points[1..], points[0]) as a sorted multiset
+            if fx.get("disp", "-") != "-" and float(fy["disp"]) != int(fx["disp"]): return False   # front end model
         elif kind == "K":
             if "empty" in x or "empty" in y:
                 if x != y: return False
@@ -312,6 +313,7 @@ def model_checks(ck, cases, model_out):
             if f["wfg"] != "-":
                 stats["wfg=hv_spec"] += 1
                 if f["wfg"] != f["spec"]: bad.append(("wfg model differs from hv_spec", c, r))
+            if f.get("disp", "-") != "-" and f["disp"] != f["spec"]: bad.append(("hv_dispatch model differs from hv_spec", c, r))
             if f["lim"] != "-":
                 stats["wfg_limit=python_limit"] += 1
                 if f["lim"] != spec_limit(P): bad.append(("wfg_limit model differs from the Python limit set", c, r))
@@ -340,7 +342,7 @@ def main():
     ck.trusted = DEFAULT_TRUSTED + ["modelled not verified: std::sort / heap algorithms of libstdc++ ('some arrangement sorted by the key'; theorem C13_hv2d_correct_any_tie_order quantifies over all of them)",
                                     "modelled not verified: nonDominatedSort inside WFG's limitSet is taken to compute rank_list (proved for fastNonDominatedSort, differential test for the DC sort and the dispatcher: query R; the limit set itself is compared on every H query)",
                                     "modelled not verified: std::sort in createFront of the 2-D subset selection is libstdc++'s insertion sort (n <= 16; the selection vector is compared for n <= 16 only; the theorem covers every arrangement sorted by the first objective); double comparisons of intersection abscissae with the 1e-10 tolerance are exact rational comparisons on small integer coordinates",
-                                    "not proved, differential test only: DC sort, dispatchers, HOY, 3-D/MD contributions, overloads without reference point"]
+                                    "not proved, differential test only: DC sort, sorting/contribution front ends, HOY (the hypervolume front end is proved for every dimension except 4), 3-D/MD contributions, overloads without reference point"]
     ck.assumptions = ["integer objective values (products of at most 5 integers <= 13 are exact in double, comparison is equality; MD contributions use exp(sum(log)) and are compared at 1e-9 relative to the total hypervolume)",
                       "reference point weakly dominated by every point (ref_i >= max coordinate, mostly strictly)",
                       "contribution queries: mutually non-dominated sets with duplicates, 1 <= k <= n, overloads WITH reference point in the main stream; overloads without reference point in a separate stream",
